@@ -59,28 +59,56 @@ impl RcvdPacketQueue {
         self.one_rtt.close();
     }
 
+    /// Hand a received packet to the connection, into the queue of its packet number space.
+    ///
+    /// This is called by the receive task of an interface, which serves every connection (and
+    /// every packet number space) on that interface, so it must never wait for one connection:
+    /// the 0-RTT and 1-RTT queues are not read before the TLS handshake has made progress, and
+    /// waiting for room there would keep the very Initial / Handshake packets that complete the
+    /// handshake (and the packets of all other connections) from being received at all.
+    ///
+    /// A packet that finds its queue full is dropped, like a packet lost by the network, and
+    /// recovered by the peer's retransmission (RFC 9001 section 5.7: packets that cannot be
+    /// processed yet MAY be buffered or discarded).
     pub async fn deliver(&self, packet: Packet, way: Way) {
         match packet {
             Packet::Data(packet) => match packet.header {
                 DataHeader::Long(long::DataHeader::Initial(header)) => {
                     let packet = CipherPacket::new(header, packet.bytes, packet.offset);
-                    _ = self.initial.send((packet, way)).await;
+                    Self::enqueue(&self.initial, (packet, way)).await;
                 }
                 DataHeader::Long(long::DataHeader::Handshake(header)) => {
                     let packet = CipherPacket::new(header, packet.bytes, packet.offset);
-                    _ = self.handshake.send((packet, way)).await;
+                    Self::enqueue(&self.handshake, (packet, way)).await;
                 }
                 DataHeader::Long(long::DataHeader::ZeroRtt(header)) => {
                     let packet = CipherPacket::new(header, packet.bytes, packet.offset);
-                    _ = self.zero_rtt.send((packet, way)).await;
+                    Self::enqueue(&self.zero_rtt, (packet, way)).await;
                 }
                 DataHeader::Short(header) => {
                     let packet = CipherPacket::new(header, packet.bytes, packet.offset);
-                    _ = self.one_rtt.send((packet, way)).await;
+                    Self::enqueue(&self.one_rtt, (packet, way)).await;
                 }
             },
             Packet::VN(_vn) => {}
             Packet::Retry(_retry) => {}
+        }
+    }
+
+    async fn enqueue<P>(queue: &PacketQueue<P>, item: (CipherPacket<P>, Way)) {
+        let item = match queue.try_send(item) {
+            Err(error) if error.is_full() => error.into_inner(),
+            // enqueued, or the queue is closed (the space's keys are discarded)
+            _ => return,
+        };
+        // The queue is full. Let the tasks of the connection run once (back pressure on a
+        // connection that is reading its queue, e.g. on a current-thread runtime), then
+        // enqueue the packet or drop it: never wait for the queue to be read.
+        tokio::task::yield_now().await;
+        if let Err(error) = queue.try_send(item)
+            && error.is_full()
+        {
+            tracing::debug!(target: "quic", "received packet dropped: queue of its space is full");
         }
     }
 }
